@@ -164,8 +164,9 @@ PROPS = {
             "level_text": "Theorems (Ktm/Props/C05.lean): an enumerated assignment binds an entry iff it is active under the assignment itself and to a "
                           "member of its value list; every random sample (any draws, seed, tried set) and every grid trial of every reachable state is an "
                           "enumerated assignment; a Hyperband promotion keeps the parent's values; stepped value lists are the declared lattice (C14).",
-            "level_note": "partial for continuous kinds and the Bayesian optimiser: step-less Float / log-sampled Int values and _vector_to_values at the "
-                          "optimiser's bound 1.0 are validated on every issued trial (type, [min, max] up to 1e-9) but not proved (float pow, scipy). "
+            "level_note": "Continuous kinds (step-less Float, Int without a step) are proved in REAL arithmetic (Ktm/Continuous.lean, the one proof file that imports "
+                          "Mathlib): every probability in [0, 1] - the optimiser's bound 1.0 included - lands in [min, max]; partial: the floating-point "
+                          "evaluation (math.pow, rounding) and scipy's choice of vector are validated on every issued trial (type, [min, max] up to 1e-9). "
                           + 'Spaces are modelled as parent-first lists of entries with numbered names and value lists (value code = index in the grid-ordered list: default first); the harness translates real HyperParameters objects to that form. Hypotheses of the theorems: distinct names and parents first (F16 / F10 were exactly violations of these; same-named entries under different conditions are exercised by the suites only).' + " Every issued trial of every suite is additionally checked by a direct monitor (exactly the active names, each value in its domain).",
             "assumptions": ["domain of an entry = its lattice / choices / fixed value plus its default"]},
     "C06": {"suites": [SAMPLING, SAMPLING_GROW, HYPERBAND_SMALL, ORACLE_SMALL],
